@@ -35,6 +35,8 @@ def make_args(desc):
 def build(desc):
     """Return a fresh, un-finalized VForm for the description."""
     from pyiga import vform
+    if desc['kind'] == 'api':
+        return _api_let(desc['expr'])
     if desc['kind'] == 'gen':
         from . import vf_gen
         return vf_gen.build(desc['tokens'], desc['dim'])
@@ -133,6 +135,8 @@ def universe():
         predef('L2functional_vf-phys-%d' % dim, 'L2functional_vf', dim, physical=True)
         predef('L2functional_vf-upd-%d' % dim, 'L2functional_vf', dim, updatable=True)
     add('heat-nost', '(inner(grad(u),grad(v)) + Dx(u,1)*v)*dx', 'spacetime')
+    for k in API_LET:
+        U.append(dict(name='api-' + k, kind='api', expr=k, dim=2, attr='let variable definition'))
     return U
 
 
@@ -213,3 +217,34 @@ def api_pairs():
     a, b = mk(la, lambda e: vf.Dx((e['h'] + 1) * (e['h'] + 1), 1, parametric=True) * e['u'] * e['v'] * vf.dx)
     pair('let-nested-dx-parametric', a, b)
     return P
+
+
+def _api_let(kind):
+    """forms with `let` variables: same kernel expression and variable names, different definitions"""
+    from pyiga import vform as vf
+    e = _api_base(fields=('f', 'A') if 'aniso' in kind else ('f',))
+    V, u, v = e['V'], e['u'], e['v']
+    if kind == 'let-scalar-a':
+        w = V.let('w', e['f'] + 1)
+        V.add(w * u * v * vf.dx)
+    elif kind == 'let-scalar-b':
+        w = V.let('w', e['f'] + 2)
+        V.add(w * u * v * vf.dx)
+    elif kind == 'let-scalar-c':
+        w = V.let('w', e['f'] * e['f'])
+        V.add(w * u * v * vf.dx)
+    elif kind == 'let-stiff':
+        B = V.let('B', V.W * vf.dot(V.JacInv, V.JacInv.T), symmetric=True)
+        V.add(B.dot(vf.grad(u, parametric=True)).dot(vf.grad(v, parametric=True)))
+    elif kind == 'let-stiff-aniso':
+        B = V.let('B', V.W * vf.dot(V.JacInv, vf.dot(e['A'], V.JacInv.T)), symmetric=True)
+        V.add(B.dot(vf.grad(u, parametric=True)).dot(vf.grad(v, parametric=True)))
+    elif kind == 'let-stiff-scaled':
+        B = V.let('B', 2 * V.W * vf.dot(V.JacInv, V.JacInv.T), symmetric=True)
+        V.add(B.dot(vf.grad(u, parametric=True)).dot(vf.grad(v, parametric=True)))
+    else:
+        raise KeyError(kind)
+    return V
+
+
+API_LET = ['let-scalar-a', 'let-scalar-b', 'let-scalar-c', 'let-stiff', 'let-stiff-aniso', 'let-stiff-scaled']
